@@ -207,7 +207,7 @@ def record(ev, tier, bins, work, rnd):
         cmds.append([rec0, f, str(vf.seed() + i), "zp", "normal"] + [str(p) for p in ps])
     f = os.path.join(work, "rec_multi.ndjson")
     files.append(f)
-    cmds.append([rec0, f, str(vf.seed()), "multi", eff if tier == "quick" else "heavy"])
+    cmds.append([rec0, f, str(vf.seed()), "multi", eff])
     f = os.path.join(work, "rec_tmpl.ndjson")
     files.append(f)
     cmds.append([rec1, f, str(vf.seed()), "tmpl", eff])
@@ -319,7 +319,13 @@ def main(tier):
     work = os.path.join(vf.BUILD, "work", "%s_%d" % (PROP, os.getpid()))
     shutil.rmtree(work, ignore_errors=True)
     os.makedirs(work)
+    import time
+    t0 = time.time()
+
+    def lap(what):
+        vf.log("[c10] %-28s %6.1fs" % (what, time.time() - t0))
     bins = build_all()
+    lap("build")
     # the oracle checks itself beyond the bounded model (primes near 2^16, Big numbers)
     rfp = vf.tlc("MC_FieldsFp", "MC_FieldsFp.cfg", workers=1, timeout=300)
     if rfp.violation or "is false" in rfp.text:
@@ -327,7 +333,9 @@ def main(tier):
     ev.add_tlc("fp_selfcheck", rfp, {"theorems": ["ThPrimes", "ThMulLarge", "ThMulSmall", "ThDistrib", "ThInverse", "ThBig", "ThPow"]})
     os.remove(rfp.outfile)
 
+    lap("Fp self-check")
     r, devs, evals_cases, nontrivial = run_cases(ev, tier, bins, work)
+    lap("model + cases")
     if r.violation:
         p = vf.save_replay(PROP, "model", {"tlc": r.violation})
         vf.violation(PROP, p)
@@ -335,6 +343,7 @@ def main(tier):
         ev.write()
         return 1
     files, evals_rec = record(ev, tier, bins, work, rnd)
+    lap("record")
     paths = shard_events(files, work, 4 if tier == "quick" else 12)
     with open(paths[0]) as fh:
         e0 = json.loads(fh.readline())
@@ -342,6 +351,7 @@ def main(tier):
         ev.sample({"trace_event": e0})
     tdevs, ncalls, tdistinct = validate(ev, tier, paths)
     devs += tdevs
+    lap("trace validation")
 
     unknown = []
     for d in devs:
